@@ -66,6 +66,8 @@ def gen_ts(rng):
     s = t.strftime('%Y-%m-%dT%H:%M:%S')
     if rng.random() < 0.25:
         s += '.' + rng.choice(['5', '250', '001', '123456', '999999999'])
+    if rng.random() < 0.2:
+        return s + rng.choice(['+00:00', '+05:30', '-08:00', '+01:00', '-00:30', '+14:00'])      # a UTC offset: the text is local time
     return s + 'Z'
 
 
